@@ -170,7 +170,7 @@ def main():
         ))
     man = dict(
         version=1,
-        setup_cmd="cd lean && lake build NurbsVerif driver",
+        setup_cmd="cd lean && lake build",
         hooks=dict(guard="GEOMDL_VERIF", enable="none needed: exact arithmetic is injected by the harness (harness/qnum.py); no source hooks",
                    baseline_off_cmd=BASE, source_commits=[], add_only=True),
         engines=[dict(name="lean4+exact-correspondence", path="lean/ harness/ check",
